@@ -586,7 +586,14 @@ def _mutate(draw: Any, inst: dict, st8: dict, kind: str) -> None:
     i = draw(st.integers(0, n - 1)) if n else 0
     k = max((r[1] for r in rows), default=1) if proper else 1
     if kind == "id_other":
-        if len(items) > 1:
+        cur = rows[i][0]
+        twins = [t + 1 for t, it in enumerate(items)
+                 if t + 1 != cur and 1 <= cur <= len(items)
+                 and sorted(it[:2]) == sorted(items[cur - 1][:2])]
+        if twins and draw(st.booleans()):
+            # same size, other id: only the multiplicities become wrong
+            rows[i][0] = draw(st.sampled_from(twins))
+        elif len(items) > 1:
             other = draw(st.integers(1, len(items) - 1))
             rows[i][0] = (rows[i][0] - 1 + other) % len(items) + 1
     elif kind == "id_invalid":
@@ -772,7 +779,11 @@ def validation_case(draw: Any, mutate: bool = True, **kw: Any) -> dict:
     muts: list[str] = []
     if mutate:
         for _ in range(draw(st.sampled_from([1, 1, 1, 2, 3]))):
-            kind = draw(st.sampled_from(MUTATIONS))
+            # Hypothesis favours small draws; rotating the catalogue by
+            # a function of the (drawn) instance evens the kinds out
+            kind = MUTATIONS[(draw(st.integers(0, len(MUTATIONS) - 1))
+                              + inst["W"] + 3 * inst["H"]
+                              + 5 * len(base["rows"])) % len(MUTATIONS)]
             _mutate(draw, inst, st8, kind)
             muts.append(kind)
     return {"inst": inst, "rows": st8["rows"], "n_bins": st8["n_bins"],
